@@ -263,6 +263,11 @@ func runStress(p StressParams, scratch string, idx int) *StressResult {
 			}
 		})
 	}
+	if p.Cfg.Backing == "custom" && p.Delays && p.Seed%2 == 0 {
+		// the application's lower-level snapshots are slow to release
+		atomic.StoreInt64(&eng.LowerCloseDelayNS, int64(500+p.Seed%2500)*1000)
+		defer atomic.StoreInt64(&eng.LowerCloseDelayNS, 0)
+	}
 	if err := e.Open(); err != nil {
 		res.Inconc = "open: " + err.Error()
 		return res
